@@ -45,11 +45,17 @@ impl Ord for Degree {
 
 impl Degree {
     pub fn add(&self, other: &Degree) -> Degree {
-        max(*self, *other)
+        use Degree::*;
+        match (self, other) {
+            // The sum of two quadratic expressions is in general not of the form `a * b + c` (with
+            // `a`, `b` and `c` linear) which the compiler accepts in a constraint.
+            (Quadratic, Quadratic) => NonQuadratic,
+            _ => max(*self, *other),
+        }
     }
 
     pub fn infix_sub(&self, other: &Degree) -> Degree {
-        max(*self, *other)
+        self.add(other)
     }
 
     pub fn mul(&self, other: &Degree) -> Degree {
